@@ -173,11 +173,14 @@ func c15Cases(thorough bool) []c15Case {
 
 func c15Programs(thorough bool) [][]refsem.Step {
 	st := func(op string, strs ...string) refsem.Step { return refsem.Step{Op: op, Strs: strs} }
-	starts := []refsem.Step{st("V"), st("V", "A:r1"), st("V", "A:r1", "zz", "B:s1"), st("E"), st("E", "A:r1-x-B:s1")}
+	// "@a" / "@b" / "@e" stand for the id of the first row of the first / second vertex table and of one edge
+	// under the mapping of the case at hand (c15Resolve): id starts must hit real ids under every mapping,
+	// also when one prefix is a prefix of the other
+	starts := []refsem.Step{st("V"), st("V", "@a"), st("V", "@b"), st("V", "@a", "zz", "@b"), st("E"), st("E", "@e")}
 	alpha := []refsem.Step{
 		st("hasLabel", "P"), st("hasLabel", "Q"), st("hasLabel", "P", "Q"), st("hasLabel", "ZZ"), st("hasLabel", "x"), st("hasLabel", "x", "y"),
 		st("out"), st("in"), st("both"), st("outE"), st("inE"), st("bothE"), st("out", "x"), st("in", "y"), st("outE", "x"),
-		st("hasId", "A:r1"), {Op: "has", Has: gripql.Eq("name", "a")}, {Op: "has", Has: gripql.Eq("_label", "P")},
+		st("hasId", "@a"), {Op: "has", Has: gripql.Eq("name", "a")}, {Op: "has", Has: gripql.Eq("_label", "P")},
 		st("as", "m1"), st("select", "m1"), st("count"), st("distinct"), st("fields"), st("path"), {Op: "limit", A: 1},
 	}
 	maxLen := 3
@@ -261,6 +264,40 @@ func caseFeatures(c c15Case) string {
 	return m + "|" + strings.Join(f, "+")
 }
 
+// c15Resolve replaces the id placeholders of a program by the ids they denote in case c.
+func c15Resolve(p []refsem.Step, c c15Case) []refsem.Step {
+	ids := map[string]string{"@e": "zz-x-zz"}
+	for prefix, vc := range c.Mapping.Vertices {
+		switch vc.Data.Collection {
+		case "T1":
+			ids["@a"] = prefix + "r1"
+		case "T2":
+			ids["@b"] = prefix + "s1"
+		}
+	}
+	var eids []string
+	for _, e := range c.Graph.E {
+		eids = append(eids, e.ID)
+	}
+	sort.Strings(eids)
+	if len(eids) > 0 {
+		ids["@e"] = eids[0]
+	}
+	out := make([]refsem.Step, len(p))
+	for i, s := range p {
+		out[i] = s
+		if len(s.Strs) > 0 {
+			out[i].Strs = append([]string{}, s.Strs...)
+			for j, v := range out[i].Strs {
+				if r, ok := ids[v]; ok {
+					out[i].Strs[j] = r
+				}
+			}
+		}
+	}
+	return out
+}
+
 func (w *c15Worker) Item(idx int, emit func(vf.Violation), st sweep.Stats, sample func(string)) {
 	c := w.cases[idx/w.chunks()]
 	ch := idx % w.chunks()
@@ -284,7 +321,7 @@ func (w *c15Worker) Item(idx int, emit func(vf.Violation), st sweep.Stats, sampl
 		}
 	}
 	for pi := ch * w.chunk; pi < (ch+1)*w.chunk && pi < len(w.progs); pi++ {
-		p := w.progs[pi]
+		p := c15Resolve(w.progs[pi], c)
 		ref := refsem.Eval(c.Graph, p)
 		if ref.Undefined != "" {
 			st["undefined_by_documentation"]++
